@@ -34,6 +34,10 @@ Definition cfg_ok (c : cfg) : bool :=
 (** ---- the class -------------------------------------------------------------------------------- *)
 Definition is_cmp (o : uop) : bool := negb (is_arith o) && negb (is_logic o).
 Definition is_col (t : uexpr) : bool := match t with UCol _ => true | _ => false end.
+(** between's bounds, startswith's and substr's arguments are taken with `.expression`, which keeps an Alias
+    node (the emitted "x AS z" inside an expression is not in the modelled fragment): excluded from the class *)
+(** F.when(...) results carry an automatic alias (the @meta decorator), so they are excluded there as well *)
+Definition noalias (t : uexpr) : bool := match t with UAlias _ _ | UWhen _ => false | _ => true end.
 
 (** results that are closed on both sides: atoms, parenthesised results, -(x), calls, CASE, CAST, items *)
 Fixpoint closed (t : uexpr) : bool :=
@@ -67,13 +71,14 @@ Fixpoint in_class (c : cfg) (t : uexpr) : bool :=
   | UNeg a | UNot a => in_class c a
   | UIsNull a | UIsNotNull a | UIsin a _ | ULike a _ | UILike a _ => in_class c a && closed a
   | UBetween a lo hi => in_class c a && in_class c lo && in_class c hi && closed a && closed lo && closed hi
+                         && noalias lo && noalias hi
   | URlike a _ | UCast a _ | UAlias a _ => in_class c a
-  | UStartsWith a b => in_class c a && in_class c b
-  | UEndsWith a b => in_class c a && in_class c b && String.eqb (c_endswith_fn c) "ENDS_WITH"
-  | USubstr a p l => in_class c a && in_class c p && in_class c l
+  | UStartsWith a b => in_class c a && in_class c b && noalias b
+  | UEndsWith a b => in_class c a && in_class c b && String.eqb (c_endswith_fn c) "ENDS_WITH" && noalias b
+  | USubstr a p l => in_class c a && in_class c p && in_class c l && noalias p && noalias l
   | UWhen bs => in_classb c bs
   | UGetItemLit a _ => is_col a
-  | UGetItemCol a i => is_col a && in_class c i && Z.eqb (c_getitem_col_off c) 1 && closed i
+  | UGetItemCol a i => is_col a && in_class c i && Z.eqb (getitem_off c (build c i)) 1 && closed i
   end
 with in_classb (c : cfg) (bs : ubranches) : bool :=
   match bs with
@@ -157,33 +162,38 @@ Proof.
   destruct ok_un as [Eneg Enot]. destruct ok_names as (EL & EIL & ER & ES & ESub & EG).
   destruct ok_nse as (N1 & N2 & N3).
   apply uexpr_ubranches_ind; intros; cbn [in_class in_classb build buildb denote denoteb] in *; bsplit;
-    try reflexivity.
+    try reflexivity;
+    repeat match goal with
+           | IH : in_class c ?t = true -> _, D : in_class c ?t = true |- _ => specialize (IH D)
+           | IH : in_classb c ?t = true -> _, D : in_classb c ?t = true |- _ => specialize (IH D)
+           end.
   - (* UBin *) destruct (ok_fwd o) as (F1 & F2 & F3 & _).
-    rewrite F3, operand_eq, strip_mkbin, F1, F2. rewrite H, H0 by assumption. reflexivity.
-  - (* URBin *) destruct (ok_rev o H0) as (F1 & F2 & F3 & _).
-    rewrite F3, pylit_true, strip_mkbin, F1, F2. cbn [strip]. rewrite H by assumption. reflexivity.
-  - (* UNse *) rewrite N3, operand_eq, strip_mkbin, N1, N2. rewrite H, H0 by assumption. reflexivity.
-  - (* UNeg *) rewrite Eneg. cbn [mkun uf_paren uf_not strip]. rewrite H by assumption. reflexivity.
-  - (* UNot *) rewrite Enot. cbn [mkun uf_paren uf_not strip]. rewrite H by assumption. reflexivity.
-  - (* UIsNull *) cbn [strip]. rewrite H by assumption. reflexivity.
-  - (* UIsNotNull *) destruct (c_isnotnull_paren c); cbn [strip]; rewrite H by assumption; reflexivity.
-  - (* UIsin *) cbn [strip]. rewrite H by assumption. reflexivity.
-  - (* UBetween *) cbn [strip]. rewrite H, H0, H1 by assumption. reflexivity.
-  - (* ULike *) rewrite EL. cbn [strip]. rewrite H by assumption. reflexivity.
-  - (* UILike *) rewrite EIL. cbn [strip]. rewrite H by assumption. reflexivity.
-  - (* URlike *) rewrite ER. cbn [strip]. rewrite H by assumption. reflexivity.
-  - (* UStartsWith *) rewrite ES. cbn [strip]. rewrite H, H0 by assumption. reflexivity.
-  - (* UEndsWith *) apply String.eqb_eq in H2. rewrite H2. cbn [strip]. rewrite H, H0 by assumption. reflexivity.
-  - (* USubstr *) rewrite ESub. cbn [strip]. rewrite H, H0, H1 by assumption. reflexivity.
-  - (* UWhen *) cbn [strip]. rewrite H by assumption. reflexivity.
-  - (* UCast *) cbn [strip]. rewrite H by assumption. reflexivity.
+    rewrite F3, operand_eq, strip_mkbin, F1, F2. congruence.
+  - (* URBin *) destruct (ok_rev o ltac:(assumption)) as (F1 & F2 & F3 & _).
+    rewrite F3, pylit_true, strip_mkbin, F1, F2. cbn [strip]. congruence.
+  - (* UNse *) rewrite N3, operand_eq, strip_mkbin, N1, N2. congruence.
+  - (* UNeg *) rewrite Eneg. cbn [mkun uf_paren uf_not strip]. congruence.
+  - (* UNot *) rewrite Enot. cbn [mkun uf_paren uf_not strip]. congruence.
+  - (* UIsNull *) cbn [strip]. congruence.
+  - (* UIsNotNull *) destruct (c_isnotnull_paren c); cbn [strip]; congruence.
+  - (* UIsin *) cbn [strip]. congruence.
+  - (* UBetween *) cbn [strip]. congruence.
+  - (* ULike *) rewrite EL. cbn [strip]. congruence.
+  - (* UILike *) rewrite EIL. cbn [strip]. congruence.
+  - (* URlike *) rewrite ER. cbn [strip]. congruence.
+  - (* UStartsWith *) rewrite ES. cbn [strip]. congruence.
+  - (* UEndsWith *) match goal with E : String.eqb _ _ = true |- _ => apply String.eqb_eq in E; rewrite E end.
+    cbn [strip]. congruence.
+  - (* USubstr *) rewrite ESub. cbn [strip]. congruence.
+  - (* UWhen *) cbn [strip]. congruence.
+  - (* UCast *) cbn [strip]. congruence.
   - (* UAlias *) auto.
   - (* UGetItemLit *) destruct a; try discriminate. rewrite EG. reflexivity.
   - (* UGetItemCol *) destruct a; try discriminate.
     match goal with E : (_ =? _)%Z = true |- _ => apply Z.eqb_eq in E; rewrite E end.
-    cbn [Z.eqb strip build denote]. rewrite H0 by assumption. reflexivity.
-  - (* UBElse *) cbn [stripb]. rewrite H by assumption. reflexivity.
-  - (* UBWhen *) cbn [stripb]. rewrite H, H0, H1 by assumption. reflexivity.
+    unfold offset_key. cbn [Z.eqb Z.ltb Z.compare Pos.compare strip build denote]. congruence.
+  - (* UBElse *) cbn [stripb]. congruence.
+  - (* UBWhen *) cbn [stripb]. congruence.
 Qed.
 
 End WithCfg.
